@@ -40,10 +40,12 @@ pub fn drive(run: usize, src: &str, strategy: usize, rng: &mut Rng, setup: &dyn 
     let base = xs.verif_dump().rlog.len(); // steps recorded before the run starts (compile-time execution)
     let mut p = 1usize; // 1-based position like the specification
     let mut dirty = false;
+    let mut last_logged = 0usize;
 
     // closures cannot borrow xs mutably twice; use small helper fns via macros
     macro_rules! fwd {
         () => {{
+            let log_before = xs.verif_dump().rlog.len();
             let r = guarded(|| xs.next());
             match r {
                 Outcome::Panic(m) => {
@@ -56,7 +58,10 @@ pub fn drive(run: usize, src: &str, strategy: usize, rng: &mut Rng, setup: &dyn 
                     let d = dump_hash(&xs);
                     let ok = r.is_ok();
                     log.moves.push("f");
-                    log.events.push(json!({"run": run, "ev": "step", "ok": if ok {1} else {0}, "d": d}));
+                    // what a failed step left in the reverse log decides where the next rnext lands
+                    let logged = xs.verif_dump().rlog.len().saturating_sub(log_before);
+                    log.events.push(json!({"run": run, "ev": "step", "ok": if ok {1} else {0}, "d": d, "logged": logged}));
+                    last_logged = logged;
                     if ok {
                         p += 1;
                         if p > hist.len() {
@@ -89,7 +94,7 @@ pub fn drive(run: usize, src: &str, strategy: usize, rng: &mut Rng, setup: &dyn 
                     log.moves.push("b");
                     log.events.push(json!({"run": run, "ev": "rstep", "d": d}));
                     if dirty {
-                        if d != hist[p - 1] && p > 1 {
+                        if last_logged == 0 && p > 1 {
                             p -= 1;
                         }
                         dirty = false;
